@@ -73,7 +73,9 @@ func (s *store) Put(ctx context.Context, key ds.Key, value []byte) error {
 	if s.refuse() {
 		return errInjected
 	}
-	if err := s.inner.Put(ctx, key, value); err != nil {
+	// a datastore that persists serialises the value during the call; MapDatastore keeps the caller's
+	// slice itself (the gater passes []byte(ip), the buffer of BlockAddr's caller), so it gets a copy
+	if err := s.inner.Put(ctx, key, append([]byte(nil), value...)); err != nil {
 		return err
 	}
 	s.shadow[key.String()] = append([]byte(nil), value...)
@@ -136,6 +138,7 @@ func runOp(f failer, g *conngater.BasicConnectionGater, st *store, w *world, m *
 		res = "error"
 	}
 	*hist = append(*hist, o.describe(w)+" -> "+res)
+	ob.noteScribble(o, err == nil)
 	if st != nil {
 		st.failNext = false // (a call that never wrote leaves the fault armed)
 	}
@@ -244,6 +247,7 @@ func TestRuleHistories(t *testing.T) {
 			"noncanonical-form-blocked": ob.noncanonBlocked, "subnet-edge-blocked": ob.edgeBlocked, "subnet-edge-free": ob.edgeFree,
 			"reopen-nonempty": reopenNE, "explicit-reopen": reopens > 1, "write-failure": failedOK > 0, "unblock-in-other-spelling": ob.ambiguous, "call-refused-by-gater": ob.refusedCalls > 0, "noncidr-mask": w.nonCIDR(),
 			"v6net-vs-v4-unspecified": ob.unspecified, "no-datastore": !useDS, "circuit-addr-via-blocked-relay-ip-refused": ob.relayBlocked,
+			"caller-overwrites-values-returned-by-ListBlocked*": ob.listsScribbled,
 		} {
 			if v {
 				labels = append(labels, k)
@@ -251,6 +255,9 @@ func TestRuleHistories(t *testing.T) {
 		}
 		for k := range kinds {
 			labels = append(labels, "op:"+k)
+		}
+		for k := range ob.scribbles {
+			labels = append(labels, k)
 		}
 		sort.Strings(labels)
 		if relaxedUsed+excludedMasks != ex0 {
